@@ -122,6 +122,8 @@ def run(tier, seed, replay=None):
     rng = random.Random(seed)
     V = common.Verdict(PID)
     ok_make, obl = proofcheck.obligations(PID, V)
+    import translate
+    tr_cov = translate.obligation(V, PID) if ok_make else {"translated": False}          # rank_chop re-translated from the current source + proof that it equals the model
     n = 300 if tier == "quick" else 5000
     dist, samples = {}, []
     rec = []
@@ -265,7 +267,7 @@ def run(tier, seed, replay=None):
             V.fail("gauge measurement raises %s" % type(ex).__name__, {"N": N_, "exc": str(ex)[:200]})
     dist["mixed-gauge isometry (centre_core_error) measured"] = n_gauge
     nviol = V.finish()
-    cov = proofcheck.coverage(PID, obl, evaluations=n, distinct_nontrivial=len(set(json.dumps(m[0], sort_keys=True, default=str) for m in replay_meta)),
+    cov = proofcheck.coverage(PID, obl, translation=tr_cov, evaluations=n, distinct_nontrivial=len(set(json.dumps(m[0], sort_keys=True, default=str) for m in replay_meta)),
         rule=("x.round(eps, rmax) on TT tensors and TT matrices of order 1..7 built from cores: random, inflated (block-diagonal self-sum of an exactly low-rank tensor), "
               "scaled (cores spread over 10^+-6), rank-deficient, zero, cancel (tiny last core, huge first core) and budget (every bond discards a tail just under its allowance, "
               "non-orthogonal badly scaled gauge) families, eps from 0 to 0.9, scalar and per-bond rmax, float64/complex128/float32/complex64; every rank_chop call is recorded and replayed "
